@@ -345,7 +345,17 @@ class CGen:
                         else: e = '(%s)(%s == 0 ? %d : __builtin_ctzll((unsigned long long)%s))' % (s.ctype(ty), args[0], b_, args[0])
                     elif nm.startswith('@llvm.fsh') or nm.startswith('@llvm.bswap'):
                         raise Unencodable('intrinsic %s in %s' % (nm, fname))
-                    elif nm in ('@_Znwm', '@_Znam'): e = 'verif_malloc(%s)' % args[0]
+                    elif nm in ('@_Znwm', '@_Znam'):
+                        # typed allocation when the result is immediately cast to T* and the size is sizeof(T) (cbmc then models a T object, not a byte array)
+                        e = 'verif_malloc(%s)' % args[0]
+                        blk_ins = F.blocks[b]; k_ = blk_ins.index(i)
+                        if i.args[0][1][0] == 'int':
+                            for j_ in blk_ins[k_ + 1:k_ + 6]:
+                                if j_.op == 'bitcast' and j_.a == ('reg', i.dest):
+                                    tt_ = m.resolve(j_.tt)
+                                    if isinstance(tt_, PtrT) and isinstance(m.resolve(tt_.to), StructT) and m.size(tt_.to) == i.args[0][1][1]:
+                                        ct_ = s.ctype(tt_.to); s.helpers.add('tmalloc'); e = '(void*)((%s*)malloc(sizeof(%s)))' % (ct_, ct_); typed_new = d
+                                    break
                     elif nm in ('@_ZdlPv', '@_ZdaPv'): e = 'free(%s)' % args[0]
                     elif nm == '@__verif_check': e = '__CPROVER_assert(%s, "verif_check")' % args[0]
                     elif nm.startswith('@nondet_') and nm not in s.m.funcs:
@@ -355,6 +365,7 @@ class CGen:
                         if d and not isinstance(i.rty, VoidT):
                             if isinstance(s.m.resolve(i.rty), (StructT, ArrT)): o.append('  %s = %s;' % (d, e))
                             else: o.append('  %s = (%s)%s;' % (d, s.ctype(i.rty), e))
+                            if e.startswith('(void*)((') and 'malloc(sizeof' in e: o.append('  __CPROVER_assume(%s != 0);' % d)
                         else: o.append('  %s;' % e)
                     if i.normal is not None:
                         o.append('  goto L_%s;' % cid(i.normal))
